@@ -925,8 +925,9 @@ func (c *Client) passToHandler(hdr Header) (err error) {
 	payload := io.LimitReader(c.conn, int64(hdr.payloadLen))
 	defer func() {
 		c.logger.MsgHandled(hdr)
-		if _, err = io.Copy(io.Discard, payload); err != nil {
-			err = fmt.Errorf("failed to discard payload for %v: %w", hdr, err)
+		// Don't let a successful (empty) discard hide an earlier error.
+		if _, dErr := io.Copy(io.Discard, payload); dErr != nil && err == nil {
+			err = fmt.Errorf("failed to discard payload for %v: %w", hdr, dErr)
 		}
 	}()
 
